@@ -87,7 +87,8 @@ struct Shadow
 {
    int id = -1; bool isPolicy = false, isFactory = false; bool attached = false, everAttached = false, sock = false;
    uint64_t want = kNever, reported = kNever; bool valid = false; int cause = 0;   // cause: 1 new, 2 invalidated, 3 pulsed
-   uint64_t period = 0, pulsedIter = 0, retimedIter = 0; int holders = 0;   // retimedIter: iteration in which a callback withdrew our time in force
+   uint64_t period = 0, pulsedIter = 0, retimedIter = 0; int holders = 0;
+   uint64_t lateAttachIter = 0;   // the iteration in which it was attached from inside an I/O policy's GetPulseTime(), i.e. after the server's pass over its sessions (known finding F32)   // retimedIter: iteration in which a callback withdrew our time in force
    std::vector<std::vector<std::string> > inPulse, inQuery;
 };
 class PSession : public AbstractReflectSession
@@ -174,7 +175,8 @@ struct H
          Shadow & s = kv.second; if (!IsAttached(s)) continue;
          if (!s.valid)
          {
-            if (s.cause == 3) Note("not_requeried_after_pulse", Desc(s) + " ran its Pulse() but was not asked for its next pulse time before the server's next wait");
+            if ((s.lateAttachIter == iterNo)&&(iterNo > 0)) Note("session_attached_from_policy_getpulsetime_not_asked_before_wait", Desc(s) + " was attached from inside an I/O policy's GetPulseTime() -- which the server calls after its pass over the sessions -- and was not asked for its pulse time before the server's next wait");
+            else if (s.cause == 3) Note("not_requeried_after_pulse", Desc(s) + " ran its Pulse() but was not asked for its next pulse time before the server's next wait");
             else Note("not_requeried_after_invalidate", Desc(s) + " was not asked for its pulse time before the server's next wait");
             continue;
          }
@@ -192,7 +194,7 @@ struct H
       {
          // from inside GetPulseTime(): new sessions join while the server is in the middle of asking everybody (its session table grows, possibly re-allocating, under the server's own iteration)
          std::vector<std::vector<std::string> > ops; ops.swap(sh[id].inQuery);
-         for (auto & t : ops) if ((t.size() >= 2)&&(t[0] == "spawn")) {th.s("inquery"); const int n = (int) std::min<uint64_t>(ToU(t[1]), 40); for (int i=0; i<n; i++) {const int nid = AllocId(); if (nid < 0) break; AddSession(nid, false, -1); SetWant(nid, g_simNowUs + 1 + (uint64_t)(i*3), true);} st.inc("p.sessions_spawned_from_inside_getpulsetime");}
+         for (auto & t : ops) if ((t.size() >= 2)&&(t[0] == "spawn")) {th.s("inquery"); const int n = (int) std::min<uint64_t>(ToU(t[1]), 40); for (int i=0; i<n; i++) {const int nid = AllocId(); if (nid < 0) break; AddSession(nid, false, -1); SetWant(nid, g_simNowUs + 1 + (uint64_t)(i*3), true); if (sh[id].isPolicy) {sh[nid].lateAttachIter = iterNo; st.inc("p.session_attached_from_inside_a_policys_getpulsetime");}} st.inc("p.sessions_spawned_from_inside_getpulsetime");}
       }
       return answer;
    }
